@@ -11,7 +11,7 @@ PROP = {
             "x==nil, x~=nil, truthiness, not, and, or), `__probe(k, x)` at branch entries, after assignments and at merge points; "
             "distinct = FNV of the sorted guard-shape paths of the reached probes; non-trivial = >= 6 reached probes judged and >= 1 of them inside a guarded branch",
     "min_nontrivial": {"quick": 12000, "thorough": 400000},
-    "max_secs": {"quick": 60, "thorough": 900},
+    "max_secs": {"quick": 600, "thorough": 1500},
     "require_clauses": ["probe:reached-and-judged"],
     "assumptions": COMMON_ASSUME + [
         "luars 0.26.2 executes this fragment like Lua 5.5 (type(), ==, and/or/not on literals and locals)",
